@@ -94,6 +94,13 @@ add("C26", "comp_mc", "exploration",
     "Every accepted program x {md5, sha256} x {extra info} x {default/custom file name}: every operationId found in any artifact (swc evaluation) is a key of the documents file and equals the configured hash of the recorded text; the recorded text tokenises to the plain build's operation; file keys = referenced ids; every operation of the plain build is persisted.",
     comp_note, "exhaustive program x configuration enumeration with hash recomputation", "2/C26")
 
+add("C12", "comp_mc", "exploration",
+    "(a) Every (field, argument list of length <= 2) over a value alphabet (variables, integers incl. negative, booleans, null, strings incl. all 2-character strings over {a, space, _, -, é} and quotes, nested objects): keys built by the real parser + to_alias_str_chunk; for every pair equal key <=> equal (field, args); every key a GraphQL Name; each key equal to what the REAL runtime functions (cut out of cache.ts by swc spans, type annotations blanked, run under node) compute from the normalization node. (b) Every field of every generated operation: alias in the query text = runtime key of the corresponding normalization AST node.",
+    comp_note + " Runtime binding: getNetworkResponseKey/getArgumentValueChunk executed as found in cache.ts.", "exhaustive pairwise enumeration + execution of the real TypeScript runtime functions under node", "2/C12")
+add("C16", "comp_mc", "exploration",
+    "Every well-typed generated program must compile; every single-fault mutant of every program (undefined field, object without / scalar with selection set, undefined argument, missing required argument, incompatible literal or variable type incl. nullability and input-object fields, undeclared / unused variable, duplicate response name; one fault at one position) must be rejected with a diagnostic.",
+    comp_note + " Mutants break exactly one rule by construction; the menus' type-correctness is cross-checked by C09's validator.", "exhaustive single-fault mutant enumeration on the real compiler", "2/C16")
+
 props = [json.loads(l)["id"] for l in open(os.path.join(ROOT, "properties.jsonl"))]
 claimed = {c["property_id"] for c in checks}
 hook_commits = subprocess.run(["git", "-C", "/repo", "log", "--format=%h %s", "cd9f374..HEAD"], capture_output=True, text=True).stdout.splitlines()
@@ -112,7 +119,7 @@ m = {
         {"name": "pico_mc", "path": "/verif/mc/pico_mc", "serves_properties": ["C01", "C02", "C03", "C04"], "kind_free_text": "explicit-state history explorer (seqx) driving the real pico crate against a reference evaluator + ideal incremental engine; pairwise key-space check for #[memo]"},
         {"name": "fs_mc", "path": "/verif/mc/fs_mc", "serves_properties": ["C18", "C19"], "kind_free_text": "explicit-state exploration of artifact-directory sessions and exhaustive fault-point enumeration on the real planner/applier over a real directory in /dev/shm"},
         {"name": "lang_mc", "path": "/verif/mc/lang_mc", "serves_properties": ["C07", "C31", "C32", "C33"], "kind_free_text": "bounded-exhaustive input explorers (grammar-directed token enumeration, text/span enumeration) on the real parser, excerpt renderer, position resolver and signer"},
-        {"name": "comp_mc", "path": "/verif/mc/comp_mc", "serves_properties": ["C08", "C09", "C11", "C13", "C14", "C15", "C17", "C26"], "kind_free_text": "progx: bounded-exhaustive program enumeration compiled by the real compiler (crash-isolated workers) with per-property oracles (swc TypeScript parser/evaluator, GraphQL validator)"},
+        {"name": "comp_mc", "path": "/verif/mc/comp_mc", "serves_properties": ["C08", "C09", "C11", "C12", "C13", "C14", "C15", "C16", "C17", "C26"], "kind_free_text": "progx: bounded-exhaustive program enumeration compiled by the real compiler (crash-isolated workers) with per-property oracles (swc TypeScript parser/evaluator, GraphQL validator)"},
         {"name": "intern_mc", "path": "/verif/mc/intern_mc", "serves_properties": ["C05", "C06"], "kind_free_text": "loom models over the real intern crate (cfg shim) + bounded-exhaustive sequential sweep"},
     ],
     "checks": checks,
